@@ -30,8 +30,6 @@ Definition reviewed_panic_sites : list (string * string * string) := [
   ("fhirpath/internal/funcs/impl/math.go:Exp", "must", "system.MustParseDecimal(fmt.Sprintf(""%v"", res))");
   ("fhirpath/internal/funcs/impl/math.go:Round", "must", "system.MustParseDecimal(fmt.Sprintf(""%d"", number))");
   ("fhirpath/internal/funcs/impl/utility.go:TimeOfDay", "must", "system.MustParseTime(timeString)");
-  ("fhirpath/internal/funcs/impl/utility.go:Today", "must", "system.MustParseDate(dateString)");
-  ("fhirpath/internal/funcs/impl/utility.go:Now", "must", "system.MustParseDateTime(dateTimeString)");
   ("fhirpath/internal/parser/visitor.go:FHIRPathVisitor.VisitProg", "assert", "v.Visit(ctx.Expression()).(*VisitResult)");
   ("fhirpath/internal/parser/visitor.go:FHIRPathVisitor.VisitIndexerExpression", "assert", "v.Visit(ctx.Expression(0)).(*VisitResult)");
   ("fhirpath/internal/parser/visitor.go:FHIRPathVisitor.VisitIndexerExpression", "assert", "v.clone().Visit(ctx.Expression(1)).(*VisitResult)");
@@ -77,5 +75,5 @@ Definition reviewed_panic_sites : list (string * string * string) := [
 
 Lemma oblig_panic_site_inventory : Gen_panicsites.panic_sites = reviewed_panic_sites.
 Proof. reflexivity. Qed.
-Lemma oblig_panic_site_count : List.length Gen_panicsites.panic_sites = 61%nat.
+Lemma oblig_panic_site_count : List.length Gen_panicsites.panic_sites = 59%nat.
 Proof. reflexivity. Qed.
